@@ -3208,6 +3208,13 @@ class ShortTermAdjustmentRequest(
         )
         super().__init__(data_identifier, control_option_record, control_enable_mask_record)
 
+    @classmethod
+    def _from_pdu(cls, pdu: bytes) -> Self:
+        # As for the generic request, the controlStates consume all remaining data.
+        data_identifier = from_bytes(pdu[1:3])
+        control_states = pdu[4:]
+        return cls(data_identifier, control_states)
+
 
 class InputOutputControlByIdentifier(
     UDSService, service_id=UDSIsoServices.InputOutputControlByIdentifier
